@@ -56,6 +56,7 @@ type W struct {
 	Seed    int64
 	Shard   int
 	NShards int
+	NPlain  int // number of shards in the plain (non -race) build; plain shards have Shard < NPlain
 	Rng     *rand.Rand
 	OutDir  string
 	Race    bool // running in the -race build
@@ -104,6 +105,26 @@ func (w *W) Pick(q, t int) int {
 
 // Mine tells whether item i of a shared enumeration belongs to this shard.
 func (w *W) Mine(i int) bool { return i%w.NShards == w.Shard }
+
+// MinePlain / SharePlain split work over the plain shards only (for properties whose -race
+// shards run a different workload).
+func (w *W) MinePlain(i int) bool {
+	if w.NPlain <= 0 {
+		return w.Mine(i)
+	}
+	return i%w.NPlain == w.Shard
+}
+
+func (w *W) SharePlain(total int) int {
+	if w.NPlain <= 0 {
+		return w.Share(total)
+	}
+	n := total / w.NPlain
+	if w.Shard < total%w.NPlain {
+		n++
+	}
+	return n
+}
 
 // Share splits a total count of random cases over the shards.
 func (w *W) Share(total int) int {
